@@ -42,6 +42,7 @@ OBLIGATIONS = [
     "Grog.C14.failing_check_forces_exec",
     "Grog.C14.failing_check_executes",
     "Grog.C14.still_failing_fails",
+    "Grog.C14.post_failing_fails",
     "Grog.C14.old_gate_witness",
     "Grog.C14.success_post_build",
     "Grog.C14.success_post_history",
